@@ -279,13 +279,10 @@ theorem s6f15_wellformed (cfg : Cfg) (ops : List Op) (c : Id) (hc : c.scalar = t
 /-- **Trigger after any history, any list of CEIDs** (repeats, unknown, unlinked and disabled ones in any position): the
 sender never dies, and it sends exactly one S6F11 per linked-and-enabled CEID of the list, in list order, each carrying
 exactly the linked reports in link order with the current values; the other CEIDs send nothing and do not stop the loop. -/
-theorem trigger_wellformed (cfg : Cfg) (ops : List Op) (cs : List Id) :
-    ∃ sent, trigger cfg (run cfg St.init ops) cs = (sent, false) ∧
-      Forall2 (fun c m => m.1 = c ∧ ∃ rs, (run cfg St.init ops).conf.links.lookup c = some (rs, true) ∧
-          WellFormed cfg (run cfg St.init ops) rs m.2)
-        (cs.filter (reportable (run cfg St.init ops))) sent := by
-  have hinv := integrity cfg ops
-  generalize run cfg St.init ops = s at hinv ⊢
+theorem trigger_ok (cfg : Cfg) (s : St) (hinv : Inv cfg s) (cs : List Id) :
+    ∃ sent, trigger cfg s cs = (sent, false) ∧
+      Forall2 (fun c m => m.1 = c ∧ ∃ rs, s.conf.links.lookup c = some (rs, true) ∧ WellFormed cfg s rs m.2)
+        (cs.filter (reportable s)) sent := by
   induction cs with
   | nil => exact ⟨[], rfl, Forall2.nil⟩
   | cons c cs ih =>
@@ -306,6 +303,13 @@ theorem trigger_wellformed (cfg : Cfg) (ops : List Op) (cs : List Id) :
         refine ⟨(c, rpts) :: sent, by simp [trigger, hl, hb, hs], ?_⟩
         rw [List.filter_cons, hr]
         exact Forall2.cons ⟨rfl, rs, hl, hw⟩ hf
+
+theorem trigger_wellformed (cfg : Cfg) (ops : List Op) (cs : List Id) :
+    ∃ sent, trigger cfg (run cfg St.init ops) cs = (sent, false) ∧
+      Forall2 (fun c m => m.1 = c ∧ ∃ rs, (run cfg St.init ops).conf.links.lookup c = some (rs, true) ∧
+          WellFormed cfg (run cfg St.init ops) rs m.2)
+        (cs.filter (reportable (run cfg St.init ops))) sent :=
+  trigger_ok cfg _ (integrity cfg ops) cs
 
 /-! ## non-vacuity and the recorded witness -/
 
